@@ -31,7 +31,8 @@ class C18(Check):
                   "plus random permission-shaped pairs), GetFilterTargets (random users x inventories x queries of every shape, each with the "
                   "default and with a logging provider) HasPermission+EvaluateFilter per object and whole object query/modify requests through HttpHandler::ProcessRequest, and diffing every observation; the same "
                   "specification predicate is evaluated on the implementation's own observations")
-    level_note = ("Trusted: Lean kernel (+ propext, Classical.choice, Quot.sound); the model's correspondence being sampled; harness/driver; the "
+    level_note = ("Negative controls: see NEGATIVE_CONTROLS in checks/c18.py and corpus/C18/negative_controls/*.diff (refactoring, message "
+                  "texts, iteration order / OR order / bookkeeping, guard spellings, translator inputs) - none is reported. Trusted: Lean kernel (+ propext, Classical.choice, Quot.sound); the model's correspondence being sampled; harness/driver; the "
                   "harness's own evaluation of the generated filter expressions (truth tables are oracle inputs). Not modelled: the DSL "
                   "evaluating the filters, HTTP parsing/authentication (ApiUser::GetByAuthHeader/GetByClientCN), "
                   "the create, config, events and debug handlers (their permission strings are in the generated table and used in direct calls, "
@@ -63,6 +64,33 @@ class C18(Check):
     ]
 
     CASES = {"quick": 20000, "thorough": 200000}
+
+    # Behaviour-preserving rewrites of the anchored code that the check must NOT report (patches kept as documentation in
+    # corpus/C18/negative_controls/*.diff; each was built from a scratch copy of /repo and run through the full flow,
+    # VERIF_REPO=<copy> VERIF_WORK=<scratch> ./check C18, at seeds 1 and 7: exit 0, no VIOLATION line).
+    NEGATIVE_CONTROLS = [
+        "nc1_refactor: GetFilterTargets with the permission check moved in front of the provider selection, renamed locals, the "
+        "by-name lookup extracted into a helper, FilteredAddTarget renamed",
+        "nc2_texts: every exception / log text of filterutility.cpp reworded, the result texts of the reschedule-check and "
+        "remove-acknowledgement actions reworded (no quotes around the name), 'No objects found.' reworded",
+        "nc3_representation: FindTargets enumerates in reverse, qd.Types visited in reverse, GetPluralName asked up front, the matching "
+        "filters collected in a vector and OR-ed newest-first, an extra bookkeeping counter (alarmed first: join comparison at seed 2)",
+        "nc4_guards: early returns instead of else branches and vice versa in EvaluateFilter, HasPermission, CheckPermission, "
+        "GetFilterTargets; `count()==0` for `find()==end()`; nested ifs for the two type checks",
+        "nc5_translator: TypeQueryHandler moved into variablequeryhandler.cpp with its `user` parameter renamed, a new handler with a "
+        "permission string of its own (`ping`), a permission assigned through a local String, changed spacing, a commented-out "
+        "assignment, a call split over two lines",
+    ]
+    # What was loosened for them (the seeded changes of DESIGN.md §5 and the later ones are all still caught):
+    #  * failures are compared as failures: no error kind, no message text (the harness no longer reads exception messages);
+    #  * the objects an action acted on are read off the objects (next_check moved / acknowledgement cleared), not parsed from
+    #    the action's result text;
+    #  * the order of provider calls is not compared; only "no call at all before a rejection" is checked (spec clause);
+    #  * a disagreement that disappears under some order of the user's entries is accepted when a permission filter of the case
+    #    raises an error (the order in which the filters are OR-ed is the code's business) - counted as or_order_tolerated;
+    #  * the permission table is a set of expressions (no file names, no order); the theorem asks for membership of the strings
+    #    the model uses and for the absence of an empty permission, so new handlers and moved handlers do not matter;
+    #  * the harness no longer reaches into Service::m_Host (private); services learn their host through OnAllConfigLoaded().
 
     def generate(self):
         """Regenerate IcingaProofs/Gen/Permissions.lean (the permission checks found under /repo/lib)."""
